@@ -104,6 +104,13 @@ func check(scen string, in In) []*mc.Violation {
 			vs = append(vs, mc.V(scen, "same-fields-same-order", in, fmt.Sprintf("%q", t), fmt.Sprintf("placeholders.Update(paragraph): %q", t3), feats...))
 		}
 	}
+	// writing is not changing: the same paragraph object written a second and a third time gives the same text
+	for n := 2; n <= 3; n++ {
+		if again, err := write(p); err != nil || again != t {
+			vs = append(vs, mc.V(scen, "cycles-stable", in, fmt.Sprintf("%q", t), fmt.Sprintf("the same paragraph written for the %d. time: %q %v", n, again, err), feats...))
+			break
+		}
+	}
 	// (a)
 	body := strings.TrimSuffix(t, "\n")
 	for _, l := range strings.Split(body, "\n") {
